@@ -4,7 +4,7 @@ import "time"
 
 // C11: when a non-voter is promoted.
 
-//verif:check C11,C08 stubs=env,valuefile,abslog reach=promoted,not-yet,end desc="leader.checkConfigAction for a non-voter marked Promote, from any round state and replication progress: a configuration making it a voter is appended only if its current round is finished, its match index reached the round's target, and either it holds everything the leader has or the round took no longer than the promote threshold" bounds="2 nodes (leader voter, follower non-voter with Promote), log of 2 entries, symbolic match index and round state/instants"
+//verif:check C11,C08 stubs=env,valuefile,abslog reach=promoted,not-yet,restarted-round,end desc="leader.checkConfigAction for a non-voter marked Promote, from any round state (none, in progress, finished, finished once and begun again) and replication progress: a configuration making it a voter is appended only if its current round is finished, its match index reached the round's target, and either it holds everything the leader has or the round took no longer than the promote threshold" bounds="2 nodes (leader voter, follower non-voter with Promote), log of 2 entries, symbolic match index and round state/instants"
 func VH_C11_promotion() {
 	r, l, _ := vMkLeader(2, 2, false)
 	cfg := r.configs.Latest
@@ -15,7 +15,16 @@ func VH_C11_promotion() {
 	vAssume(r.commitIndex >= l.startIndex && cfg.Index <= r.commitIndex)
 	st := &l.repls[2].status
 	var rd *round
-	switch vChoice(3) {
+	switch vChoice(4) {
+	case 3: // a round that finished earlier and was begun again (leader.beginFinishedRounds on a new entry, or the
+		// slow-round arm of checkConfigAction): built with the round's own methods, as the code builds it
+		rd = &round{}
+		first := vU64("round1.lastIndex")
+		vAssume(first <= st.matchIndex) // it finished when the match index had reached its target
+		rd.begin(first)
+		rd.finish()
+		rd.begin(vU64("round.lastIndex"))
+		vReach("restarted-round")
 	case 1: // a round in progress
 		rd = &round{Ordinal: 1, LastIndex: vU64("round.lastIndex")}
 		rd.Start = vInstant("round.start")
